@@ -81,6 +81,7 @@ class Mat:
         self.e = e if e is not None else [[None] * c for _ in range(r)]
         self.base, self.i0, self.j0 = self, 0, 0
         self.frozen = False
+        self.tr_of = None
 
     def get(self, i, j):
         if not (0 <= i < self.r and 0 <= j < self.c):
@@ -104,7 +105,7 @@ class Mat:
         if not (0 <= i0 and 0 <= j0 and i0 + r <= self.r and j0 + c <= self.c):
             raise Unsupported("block (%d,%d,%d,%d) outside a %dx%d matrix" % (i0, j0, r, c, self.r, self.c))
         v = Mat.__new__(Mat)
-        v.r, v.c, v.e, v.base, v.i0, v.j0, v.frozen = r, c, None, self.base, self.i0 + i0, self.j0 + j0, False
+        v.r, v.c, v.e, v.base, v.i0, v.j0, v.frozen, v.tr_of = r, c, None, self.base, self.i0 + i0, self.j0 + j0, False, None
         return v
 
     def is_vector(self):
@@ -350,6 +351,8 @@ class Ev:
         """target (a Mat or a view) := value (Mat / view of the same shape), after let-binding the value"""
         if not isinstance(value, Mat):
             raise Unsupported("matrix value expected for %s" % hint)
+        if getattr(value, "tr_of", None) is target.base:
+            raise Unsupported("assignment of a transposed view of %s to itself (aliasing)" % hint)
         if (target.r, target.c) != (value.r, value.c):
             if target.r * target.c == value.r * value.c and target.is_vector() and value.is_vector():
                 value = fresh_mat([[value.vget(i * target.c + j) for j in range(target.c)] for i in range(target.r)])
@@ -458,6 +461,9 @@ class Ev:
                 raise Unsupported("conversion of a run-time integer to double")
             if ck == "FloatingToIntegral":
                 raise Unsupported("conversion of a double to an integer")
+            if ck == "FloatingCast" and not (is_scalar_type(n.get("type", {})) and clean_type(n.get("type", {}).get("qualType", "")) != "float"
+                                             and clean_type(n["inner"][0].get("type", {}).get("qualType", "")) != "float"):
+                raise Unsupported("conversion between floating-point types")
             if isinstance(v, Ref):
                 v = v.get()
             return v
@@ -868,7 +874,9 @@ class Ev:
                 if (a.r, a.c) != (b.r, b.c):
                     raise Unsupported("sum of %dx%d and %dx%d" % (a.r, a.c, b.r, b.c))
                 ea, eb = a.entries(), b.entries()
-                return fresh_mat([[binop(op, ea[i][j], eb[i][j]) for j in range(a.c)] for i in range(a.r)])
+                t = fresh_mat([[binop(op, ea[i][j], eb[i][j]) for j in range(a.c)] for i in range(a.r)])
+                t.tr_of = getattr(a, "tr_of", None) or getattr(b, "tr_of", None)
+                return t
             raise Unsupported("matrix %s matrix" % op)
         if am and not bm and op in "*/":
             s = self.bind_scalar("s", self.scalar(b))
@@ -893,7 +901,7 @@ class Ev:
             v = self.ev(rhs)
             if not isinstance(v, Obj) or v.cls != target.cls:
                 raise Unsupported("object assignment")
-            if target.frozen:
+            if target.frozen or any(getattr(x, "frozen", False) for x in target.fields.values()):
                 raise Unsupported("write to an object a reference is bound to")
             target.fields = self.copy_value(v).fields
             return target
@@ -1139,7 +1147,9 @@ class Ev:
         ty = n.get("type", {}).get("qualType", "")
         if nm == "transpose" and not args:
             e = m.entries()
-            return fresh_mat([[e[i][j] for i in range(m.r)] for j in range(m.c)])
+            t = fresh_mat([[e[i][j] for i in range(m.r)] for j in range(m.c)])
+            t.tr_of = m.base          # a lazily evaluated view of m in Eigen: assigning it (or a sum with it) to m aliases
+            return t
         if nm == "col" and len(args) == 1:
             return m.view(0, self.as_int(args[0]), m.r, 1)
         if nm == "row" and len(args) == 1:
